@@ -1042,3 +1042,45 @@ Proof.
 Qed.
 
 End Prefix.
+
+(* ================================================================== a whole string: the unit rule is per tag *)
+
+From Coq Require Import Permutation.
+
+Lemma validate_tags_loop_acc f3 f4 S acc tags :
+  validate_tags_loop f3 f4 S acc tags
+  = acc ++ flat_map (fun te => validate_units f3 f4 S (fst te) (snd te)) tags.
+Proof.
+  unfold validate_tags_loop. revert acc.
+  induction tags as [|te r IH]; intro acc; simpl.
+  - rewrite app_nil_r. reflexivity.
+  - rewrite IH, app_assoc. reflexivity.
+Qed.
+
+(* the issues of a string are the concatenation, over its tags in order, of the per-tag unit issues *)
+Theorem string_is_concat_lemma f3 f4 S tags :
+  validate_units_string f3 f4 S tags
+  = flat_map (fun te => validate_units f3 f4 S (fst te) (snd te)) tags.
+Proof. unfold validate_units_string. rewrite validate_tags_loop_acc. reflexivity. Qed.
+
+(* the verdict on a tag does not depend on what stands before or after it in the string *)
+Theorem string_tag_context_free_lemma f3 f4 S before T ext after :
+  validate_units_string f3 f4 S (before ++ (T, ext) :: after)
+  = validate_units_string f3 f4 S before ++ validate_units f3 f4 S T ext
+    ++ validate_units_string f3 f4 S after.
+Proof.
+  rewrite !string_is_concat_lemma, flat_map_app. simpl. reflexivity.
+Qed.
+
+(* re-ordering the tags of a string only re-orders its unit issues *)
+Theorem string_permutation_lemma f3 f4 S tags tags' :
+  Permutation tags tags' ->
+  Permutation (validate_units_string f3 f4 S tags) (validate_units_string f3 f4 S tags').
+Proof.
+  intro H. rewrite !string_is_concat_lemma.
+  induction H as [|x l l' H IH|x y l|l l' l'' H1 IH1 H2 IH2]; simpl.
+  - constructor.
+  - apply Permutation_app_head. exact IH.
+  - rewrite !app_assoc. apply Permutation_app_tail. apply Permutation_app_comm.
+  - eapply Permutation_trans; eauto.
+Qed.
